@@ -102,6 +102,11 @@ def verdict (model : String) (inv : Inv) (desired : List Repo) (i : Impl) : Stri
 
 def boolErr (b : Bool) : String := if b then "err" else "ok"
 
+/-- the hypothesis `WF` of the theorems, checked on every case: shard paths of distinct repositories do not interfere -/
+def apartAll : List Repo → Bool
+  | [] => true
+  | a :: t => t.all (fun b => !((b.shard0 :: b.more).contains a.shard0) && !((a.shard0 :: a.more).contains b.shard0)) && apartAll t
+
 /-- `plan <cwd> <desired> <shards>`: planPrune only (impl = actions) -/
 def handle (line : String) : String :=
   let (inp, impl) := splitCase line
@@ -109,6 +114,7 @@ def handle (line : String) : String :=
   | ["sync", cwd, ds, ss] =>
     match hexStr? cwd, list? ";" parseRepo ds, list? ";" parseShard ss with
     | some cwd, some desired, some inv =>
+      if !apartAll desired then badCase "shard paths of two repositories interfere" else
       let p := runSync false cwd desired inv
       let f := runSync true cwd desired inv
       let model := render p.events (boolErr p.err) p.inv f.events (boolErr f.err) f.inv
